@@ -440,6 +440,42 @@ def main(tier):
         cases.append(('h_pade', [I(m), I(2), Buf('are', list(rng.uniform(-1, 1, 4))), Buf('aim', list(rng.uniform(-1, 1, 4))), Buf('ure', n=4), Buf('uim', n=4), Buf('vre', n=4), Buf('vim', n=4)], ['ure', 'uim', 'vre', 'vim']))
     cases.append(('h_expm', [I(3), Buf('are', [0.5, 0, 0, 0, -0.25, 0, 0, 0, 1.0]), Buf('aim', [0.1, 0, 0, 0, 0.2, 0, 0, 0, -0.3]), Buf('ere', n=9), Buf('eim', n=9)], ['ere', 'eim']))
     generic_interp_vs_native(chk, h, cases)
+    # native call-history battery (NOT solver-decided): one process exponentiates a small matrix first (order 3/5 bookkeeping), then matrices
+    # in every norm band and dimension; the estimators and ell are stubs in the symbolic obligations, so state they carry between calls is only visible here
+    import subprocess
+    from scipy.linalg import expm as sp_expm
+    seq = []
+    r2 = np.random.RandomState(chk.seed + 77)
+    for nrm, n_ in [(1e-3, 6), (0.004, 3), (0.1, 2), (0.2, 4), (0.5, 5), (0.9, 6), (1.5, 3), (2.0, 6), (3.0, 2), (8.0, 4), (30.0, 5), (200.0, 6), (0.8, 2), (1e-3, 4)]:
+        X = r2.uniform(-1, 1, (n_, n_)) + 1j * r2.uniform(-1, 1, (n_, n_))
+        X = X - X.conj().T
+        X *= nrm / np.abs(X).sum(axis=0).max()
+        seq.append((n_, X))
+    code_ = r'''
+import ctypes, sys, json
+lib=ctypes.CDLL(sys.argv[1]); seq=json.loads(sys.argv[2]); out=[]
+for n,re,im in seq:
+    a=(ctypes.c_double*(n*n))(*re); b=(ctypes.c_double*(n*n))(*im); er=(ctypes.c_double*(n*n))(); ei=(ctypes.c_double*(n*n))()
+    rc=lib.h_expm(ctypes.c_uint(n),a,b,er,ei); out.append([rc,list(er),list(ei)])
+print(json.dumps(out))
+'''
+    from irsym import build as _b
+    so_ = _b.native_so(CPP, exclude=('MatrixExp',))
+    pr_ = subprocess.run([sys.executable, '-c', code_, so_, json.dumps([[n_, list(X.real.flatten()), list(X.imag.flatten())] for n_, X in seq])], capture_output=True, text=True, timeout=120)
+    chk.cov['interp_vs_native']['cases'] += len(seq)
+    if pr_.returncode != 0 or not pr_.stdout.strip():
+        chk.report('expm:native-history', 'matrix_exponential: a sequence of calls in one thread (small matrix first, then every norm band) crashed natively: %s [found by the native battery, not by the solver]' % pr_.stderr.strip().split('\n')[-1][:160], {'sequence': [(n_, float(np.abs(X).sum(axis=0).max())) for n_, X in seq]})
+    else:
+        worst_ = (0.0, None)
+        for (n_, X), (rc_, er_, ei_) in zip(seq, json.loads(pr_.stdout.strip().split('\n')[-1])):
+            E_ = (np.array(er_) + 1j * np.array(ei_)).reshape(n_, n_)
+            dev_ = float(np.abs(E_ - sp_expm(X)).max()) if rc_ == 0 and np.isfinite(E_).all() else float('inf')
+            if dev_ > worst_[0]:
+                worst_ = (dev_, (n_, float(np.abs(X).sum(axis=0).max())))
+        chk.cov['native_history'] = {'calls': len(seq), 'worst deviation from scipy.linalg.expm': worst_[0]}
+        if worst_[0] > 1e-10:
+            chk.report('expm:native-history', 'matrix_exponential: in a sequence of calls on one thread (a small matrix first, then every norm band) the %dx%d matrix of 1-norm %.3g deviates from exp(A) by %.3g although each call alone is accurate [found by the native battery, not by the solver]' % (
+                worst_[1][0], worst_[1][0], worst_[1][1], worst_[0]), {'sequence': [(n_, float(np.abs(X).sum(axis=0).max())) for n_, X in seq]})
     with MPool(min(16, os.cpu_count() or 1)) as mp:
         results = mp.map(work, items, chunksize=1)
     for w in results:
